@@ -236,6 +236,33 @@ impl<'ast, 'a> Visit<'ast> for Assigned<'a> {
     }
 }
 
+/// does `body` contain a `return`, a `?` or a labelled `break` / `continue` (which may leave an outer loop)?
+pub fn block_leaves_fn(body: &syn::Block) -> bool {
+    struct L(bool);
+    impl<'ast> Visit<'ast> for L {
+        fn visit_expr_return(&mut self, _: &'ast syn::ExprReturn) {
+            self.0 = true;
+        }
+        fn visit_expr_try(&mut self, _: &'ast syn::ExprTry) {
+            self.0 = true;
+        }
+        fn visit_expr_break(&mut self, b: &'ast syn::ExprBreak) {
+            if b.label.is_some() {
+                self.0 = true;
+            }
+            visit::visit_expr_break(self, b);
+        }
+        fn visit_expr_continue(&mut self, c: &'ast syn::ExprContinue) {
+            if c.label.is_some() {
+                self.0 = true;
+            }
+        }
+    }
+    let mut l = L(false);
+    l.visit_block(body);
+    l.0
+}
+
 /// does `body` (of a loop labelled `label`) contain a `break` / `continue` that targets that loop?
 pub fn loop_has_jumps(body: &syn::Block, label: Option<&str>) -> bool {
     struct J<'l> {
